@@ -22,6 +22,8 @@ pub struct Avoid {
     pub multi_directive: bool,
     /// optional call `?.()` whose callee is a member of an inner part of the same optional chain (`a?.m().p?.()`)
     pub opt_call_paren_callee: bool,
+    /// `08 .toString()`: printed as `08.toString()` by the dependency's code generator (see the known finding)
+    pub legacy_decimal_member: bool,
     /// surplus arguments of `.apply(thisArg, [..], surplus)` in executed programs (see the known finding)
     pub apply_surplus_args: bool,
     /// `super[key()] += s` inside the arguments of `super(..)` (always throws; see the known finding)
